@@ -412,6 +412,34 @@ def main(ctx: Ctx):
     for t in (("conj", []), ("stack", [])):
         compare(ctx, t, shapes, rich=True)
     ctx.cov["exhaustive_depth1"] = not quick
+    if not quick:
+        # depth 2, exhaustive up to behavioural equivalence of the depth<=1 sub-terms: one representative per
+        # (required keys, output keys, results of applying it to canonical inputs of every dictionary class)
+        depth1 = list(A)
+        for a, b in itertools.product(A, A):
+            depth1 += [("comp", a, b), ("conj", [a, b]), ("stack", [a, b])]
+        depth1 += [("conj", [a]) for a in A] + [("stack", [a]) for a in A] + [("conj", []), ("stack", [])]
+        classes = {}
+        for t in depth1:
+            b, _ = observe(t, shapes, None)
+            if b[0] != "ok":
+                classes.setdefault(("unbuildable",), t)
+                continue
+            sig = [tuple(b[1]), tuple(b[2])]
+            for ty in ("Gradients", "Jacobians", "GradientVectors", "JacobianMatrices", "TensorDict", "EmptyTensorDict"):
+                if ty == "EmptyTensorDict" and b[1]:
+                    continue
+                inp = (ty, [(k, value_shape(ty, shapes[k], 2, (3, 2))) for k in b[1]])
+                _, a_ = observe(t, shapes, inp)
+                sig.append(repr(a_))
+            classes.setdefault(tuple(sig), t)
+        reps = list(classes.values())
+        ctx.cov["depth1_terms"] = len(depth1)
+        ctx.cov["depth1_behaviour_classes"] = len(reps)
+        for a, b in itertools.product(reps, reps):
+            for t in (("comp", a, b), ("conj", [a, b]), ("stack", [a, b])):
+                compare(ctx, t, shapes)
+        ctx.cov["exhaustive_depth2_up_to_equivalence"] = True
     # sampled deeper terms + laws
     n = 600 if quick else 12000
     for i in range(n):
